@@ -73,7 +73,7 @@ Definition secret_of (c : cfg) (e : auth_env) (db name : bytes) (s : secret) : P
      (exists h, p_aq p = true /\ In (Some h) (fetches e) /\ s = Shadow h)).
 
 Definition is_admitted (o : outcome) : bool :=
-  match o with Admitted _ _ | AdminAdmitted => true | _ => false end.
+  match o with PoolAdmitted _ _ | AdminAdmitted => true | _ => false end.
 
 (** replies that may precede the decision *)
 Definition pre_auth_reply (r : reply) : bool :=
